@@ -6,6 +6,7 @@ handlers of `Model/Station.lean`, for every station state and every input.
 -/
 import ProfiVerif.Lemmas.Gap
 import ProfiVerif.Lemmas.StationGap
+import ProfiVerif.Lemmas.StationVisit
 
 namespace PV.C12
 open PV
@@ -510,6 +511,50 @@ theorem claim_poll_only_own_gap (s : Station) (cur a : Nat) (hts : s.p.address <
   | waiting => rw [hp] at h; simp at h
   | panic => rw [hp] at h; simp at h
 
+/-- **End of the token hold** (`passNow`, since the repair of K3): `do_use_token` moves to `PassToken`
+with `do_gap = Yes` and runs `do_pass_token` in the same poll.  So that poll transmits nothing (pause
+not over), or the ONE GAP poll of this visit (then `AwaitStatusResponse` for the polled address), or
+the token to NS. -/
+theorem hold_end_outcomes (c c' : Ctx) (now : Int) (htx : c.tx = none) (h : passNow c now = .ok c') :
+    (c'.tx = none ∧ c'.s.st = .passToken true .first ∧ c'.s.gap = c.s.gap) ∨
+    (∃ a, gapAdvance (stamped c.s now) = some (.doPoll a) ∧ c'.tx = some (statusRequestBytes a c.s.p.address) ∧
+          c'.s.st = .awaitStatus a ∧ c'.s.gap = .doPoll a) ∨
+    (∃ r, gapAdvance (stamped c.s now) = some (.waiting r) ∧ c'.tx = some (tokenBytes c.s.ring.ns c.s.p.address) ∧
+          c'.s.gap = .waiting r ∧ (c'.s.st = .checkTokenPass .first ∨ c'.s.st = .useToken ⟨now, none⟩ false)) := by
+  unfold passNow at h
+  cases htr : tr c (fun s => toPassToken s true .first) "transition_pass_token" with
+  | panic m => rw [htr] at h; cases h
+  | ok c1 =>
+    rw [htr] at h
+    simp only [Res.bind] at h
+    obtain ⟨s', hs', rfl⟩ := tr_cases _ _ _ _ htr
+    have hs'eq : s' = { c.s with st := .passToken true .first } := by
+      unfold toPassToken at hs'
+      split at hs' <;> first | (cases hs'; rfl) | cases hs'
+    subst hs'eq
+    exact gap_poll_once_per_visit_outcomes { c with s := { c.s with st := .passToken true .first } } c' now .first rfl htx h
+
+/-- **What a poll of the application phase puts on the bus** (`Station.poll` in `UseToken` /
+`AwaitDataResponse`, any inputs): nothing; or a message cycle of an application (its
+`transmit_telegram` returned a telegram; the station stays in the visit); or — the token hold ends in
+this poll — the own GAP poll, after which the station is in `AwaitStatusResponse` for the polled
+address; or the token.  Hence a status request in this phase is either an application's or is counted
+by `gapPolls`. -/
+theorem visit_poll_outcomes (s : Station) (apps : Apps) (now : Int) (phyTx : Bool) (rx : Bytes) (c' : Ctx)
+    (hin : StationVisit.inVisit s.st = true) (h : s.poll apps now phyTx rx = .ok c') :
+    c'.tx = none ∨
+    (StationVisit.hasSend c'.calls = true ∧ StationVisit.inVisit c'.s.st = true) ∨
+    (∃ a, c'.tx = some (statusRequestBytes a s.p.address) ∧ c'.s.st = .awaitStatus a ∧ c'.s.gap = .doPoll a) ∨
+    (∃ ns, c'.tx = some (tokenBytes ns s.p.address) ∧
+      (c'.s.st = .checkTokenPass .first ∨ c'.s.st = .useToken ⟨now, none⟩ false)) := by
+  rcases StationVisit.poll_visit_cases s apps now phyTx rx c' hin h with h1 | h1 | ⟨c1, h1, h2, h3⟩
+  · exact Or.inl h1
+  · exact Or.inr (Or.inl h1)
+  · rcases hold_end_outcomes c1 c' now h1 h3 with ⟨ht, _, _⟩ | ⟨a, _, ht, hs, hg⟩ | ⟨r, _, ht, _, hs⟩
+    · exact Or.inl ht
+    · exact Or.inr (Or.inr (Or.inl ⟨a, by rw [ht, h2], hs, hg⟩))
+    · exact Or.inr (Or.inr (Or.inr ⟨c1.s.ring.ns, by rw [ht, h2], hs⟩))
+
 /-! ### … as one theorem over the polls of a whole token visit -/
 
 /-- One poll (`Station.poll`, any inputs) of a station that is past the application phase of its
@@ -607,25 +652,39 @@ theorem one_gap_poll_per_visit : ∀ (ins : List (Int × Bool × Bytes)) (s : St
       | ok c' =>
         rw [hp] at h
         simp only at h
+        obtain ⟨k, hk⟩ : ∃ k : Nat, k = if isSd1 c'.tx = true ∧ (ph ≠ 0 ∨ phase c'.s.st = some 2) then 1 else 0 :=
+          ⟨_, rfl⟩
+        rw [← hk] at h
+        have hk01 : k = 0 ∨ k = 1 := by rw [hk]; split <;> simp
         by_cases h0 : ph = 0
-        · -- application phase: nothing is counted, and the station is in neither phase 2 nor 3
+        · -- application phase: the only counted request is the one that leads to AwaitStatusResponse
           subst h0
-          simp only [ne_eq, not_true_eq_false, false_and, if_false, Nat.add_zero, Option.map_eq_some_iff] at h
+          simp only [ne_eq, not_true_eq_false, false_and, if_false, Option.map_eq_some_iff] at h
           obtain ⟨m, hm, rfl⟩ := h
-          have := ih c'.s c'.apps m hm
-          simp
-          omega
+          have hrec := ih c'.s c'.apps m hm
+          have hw0 : (if some 0 = some 2 ∨ some 0 = some 3 then 1 else 0) = 0 := by simp
+          rw [hw0]
+          rcases hk01 with hk0 | hk1
+          · rw [hk0]; omega
+          · have hp2 : phase c'.s.st = some 2 := by
+              rw [hk1] at hk
+              split at hk
+              · rename_i hc
+                rcases hc.2 with hc2 | hc2
+                · exact absurd rfl hc2
+                · exact hc2
+              · cases hk
+            rw [hp2] at hrec
+            simp at hrec
+            omega
         · have hv := poll_gap_phase s apps now phyTx rx c' ph hph h0 hp
-          obtain ⟨k, hk⟩ : ∃ k : Nat, k = if ph ≠ 0 ∧ isSd1 c'.tx = true then 1 else 0 := ⟨_, rfl⟩
-          rw [← hk] at h
           -- a counted request comes from phase 1 and leads to phase 2
           have hk1 : k = 1 → ph = 1 ∧ phase c'.s.st = some 2 := by
             intro hk1
             rw [hk1] at hk
             split at hk
-            · rename_i hc; exact hv.1 hc.2
+            · rename_i hc; exact hv.1 hc.1
             · cases hk
-          have hk01 : k = 0 ∨ k = 1 := by rw [hk]; split <;> simp
           split at h
           · -- a new visit begins: stop
             simp only [Option.some.injEq] at h
@@ -1091,7 +1150,7 @@ theorem ready_master_becomes_ns (c : Ctx) (now : Int) (addr : Nat) (rx' : Bytes)
     rw [if_neg (by omega)] at hsn
     cases hsn
   | some r =>
-    have hns := TokenRing.setNextStation_ns c.s.ring r addr (by rw [hts]; exact hne) (by rw [hts]; exact hts') hsn
+    have hns := TokenRing.setNextStation_spec c.s.ring r addr (by rw [hts]; exact hne) (by rw [hts]; exact hts') hsn
     rw [hsn] at hstep
     exact ⟨r, rfl, hns.1, hns.2.1, hns.2.2.1, hns.2.2.2, hstep⟩
 
@@ -1147,7 +1206,7 @@ theorem ready_master_becomes_ns_claim (c : Ctx) (now : Int) (fuel addr : Nat) (r
     rw [if_neg (by omega)] at hsn
     cases hsn
   | some r =>
-    have hns := TokenRing.setNextStation_ns c.s.ring r addr (by rw [hts]; exact hne) (by rw [hts]; exact hts') hsn
+    have hns := TokenRing.setNextStation_spec c.s.ring r addr (by rw [hts]; exact hne) (by rw [hts]; exact hts') hsn
     rw [hsn] at hstep
     exact ⟨r, rfl, hns.1, hns.2.1, hns.2.2.1, hns.2.2.2, hstep⟩
 
@@ -1464,6 +1523,11 @@ def obs : Res → Option (FState × GapState × Option Bytes × Nat)
 -- 1. end of a visit, sweep running at 8: one request to 9, then AwaitStatusResponse 9
 example : SyncOver (demo (.passToken true .first) (.doPoll 8) []).s 1000 := by decide
 example : obs (doPassToken (demo (.passToken true .first) (.doPoll 8) []) 1000) =
+    some (.awaitStatus 9, .doPoll 9, some (statusRequestBytes 9 7), 20) := by decide
+-- a whole visit from the token receipt (no application): the token hold ends at t=1000 with the request to 9
+example : gapPolls (demo (.useToken ⟨900, none⟩ false) (.doPoll 8) []).s []
+    [(1000, false, []), (1500, false, []), (3000, false, []), (5000, false, [])] = some 1 := by decide
+example : obs ((demo (.useToken ⟨900, none⟩ false) (.doPoll 8) []).s.poll [] 1000 false []) =
     some (.awaitStatus 9, .doPoll 9, some (statusRequestBytes 9 7), 20) := by decide
 -- a whole visit tail: request at t=1000, still waiting at 1500, time-out and token pass at 3000: one request
 example : gapPolls (demo (.passToken true .first) (.doPoll 8) []).s []
